@@ -30,14 +30,15 @@ try:
     for f in demo_src:
         shutil.copy(os.path.join(sd, f), os.path.join(wt, crate_dir, 'tests', f))
     tests = ' '.join('--test ' + f[:-3] for f in demo_src)
-    cmd = 'cargo test -p %s --offline %s 2>&1 | grep -E "^test result|FAILED|panicked" | head -8' % (crate, tests)
+    cmd = 'cargo test -p %s --offline %s 2>&1 | grep -E "^test result|FAILED|panicked|signal:|overflowed its stack" | head -8' % (crate, tests)
     rc, o = sh(cmd, cwd=wt)
     clean_ok = 'FAILED' not in o and 'test result: ok' in o
     meta['ran'].append(dict(cmd=cmd, tree='unpatched', passed=clean_ok, output=o[-600:]))
     rc, o = sh('git apply %s' % os.path.join(sd, 'patch.diff'), cwd=wt)
     meta['patch_applies'] = rc == 0
     rc, o = sh(cmd, cwd=wt)
-    patched_fails = 'FAILED' in o or 'test result: FAILED' in o
+    # (a demo that kills the test binary - abort, stack overflow - prints no test result at all)
+    patched_fails = 'FAILED' in o or 'test result: FAILED' in o or 'signal:' in o or 'overflowed its stack' in o or (meta['patch_applies'] and 'test result: ok' not in o)
     meta['ran'].append(dict(cmd=cmd, tree='patched', passed=not patched_fails, output=o[-600:]))
     rc, o = sh('python3 %s/tools/baseline_check.py %s' % (V, wt))
     meta['baseline_with_patch'] = o.strip().split('\n')[0]
